@@ -110,18 +110,24 @@ theorem enterAct_acts' (P : Program) (F : Flags) (c c' : Config) (a : Nat) (kind
         rw [act?_set_other _ _ _ _ hbp]
         simp
 
-/-- the result of a finished activation never changes -/
-theorem kidDone_step (P : Program) (F : Flags) (c c' : Config) (l : Label) (h : step P F c l = some c')
-    (id : Nat) (r : Res) (hk : kidDone c id = some r) : kidDone c' id = some r := by
-  have hex : ∃ k, c.act? id = some k ∧ k.phase = .done ∧ k.res = r := by
-    unfold kidDone at hk
+theorem kidDone_some (c : Config) (id : Nat) (r : Res) :
+    kidDone c id = some r ↔ ∃ k, c.act? id = some k ∧ k.phase = .done ∧ k.res = r := by
+  unfold kidDone
+  constructor
+  · intro hk
     split at hk
     · rename_i k hk'
       split at hk
       · rename_i hd; exact ⟨k, hk', hd, Option.some.inj hk⟩
       · cases hk
     · cases hk
-  obtain ⟨k, hk1, hk2, hk3⟩ := hex
+  · rintro ⟨k, h1, h2, h3⟩
+    rw [h1]; simp [h2, h3]
+
+/-- the result of a finished activation never changes -/
+theorem kidDone_step (P : Program) (F : Flags) (c c' : Config) (l : Label) (h : step P F c l = some c')
+    (id : Nat) (r : Res) (hk : kidDone c id = some r) : kidDone c' id = some r := by
+  obtain ⟨k, hk1, hk2, hk3⟩ := (kidDone_some c id r).mp hk
   rcases step_cases P F c c' l h with ⟨kd, t, _, hen⟩ | ⟨_, x, y, eff, hx, hl, rfl⟩
   · obtain ⟨hnone, _, hoth⟩ := enterAct_acts' P F c c' l.act kd t hen
     have hne : id ≠ l.act := by intro e; subst e; rw [hk1] at hnone; cases hnone
